@@ -99,7 +99,8 @@ AXES = [
         ("Tags", "東方\u3000Project b"), ("Tags", "a\u00a0b c"), ("Tags", "a\tb c"), ("Title", "x ~mix~ \\ y"),
         # Unicode line-boundary characters inside a value are characters of the value (lines end with \n only)
         ("TitleUnicode", "a\u2028b"), ("Version", "a\u0085b")]]),
-    ("meta_num", [("preview", _meta("PreviewTime", "86398")), ("preview-7-digits", _meta("PreviewTime", "1234567")), ("leadin-7-digits", _meta("AudioLeadIn", "1000001")), ("leadin", _meta("AudioLeadIn", "500")), ("hp0", _meta("HPDrainRate", "0")),
+    ("meta_num", [("preview", _meta("PreviewTime", "86398")), ("preview-7-digits", _meta("PreviewTime", "1234567")), ("leadin-7-digits", _meta("AudioLeadIn", "1000001")),
+                  ("floats-8-digits", lambda d: d["meta"].update(SliderMultiplier="1.2345678", DistanceSpacing="0.12345678", TimelineZoom="2.3456789", HPDrainRate="7.1234567", StackLeniency="0.12345678")), ("leadin", _meta("AudioLeadIn", "500")), ("hp0", _meta("HPDrainRate", "0")),
                   ("ids", lambda d: d["meta"].update(BeatmapID="2062527", BeatmapSetID="-1")), ("sampleset_none", _meta("SampleSet", "None"))]),
     ("samples", [("one", _samples([(24565, "clap.wav", 70)])), ("two_same_time", _samples([(100, "a.wav", 70), (100, "b.wav", 30)])),
                  ("negative", _samples([(-5, "a.wav", 100)]))]),
